@@ -385,6 +385,8 @@ pub struct Dgram {
     /// "gen" genuine first copy, "dup", "corrupt", "forged", "foreign", "reset", "inject", "raw"
     pub cls: &'static str,
     pub seq: u64,
+    /// exact stateless reset token of the CID in use (reset-like datagrams only)
+    pub exact: bool,
 }
 
 // ---------------------------------------------------------------------------------------------
@@ -401,6 +403,8 @@ pub struct ConnSlot {
     pub peer: usize,
     pub last_frame_rx: [u64; 24],
     pub app_events: Vec<Value>,
+    /// destination CID of the most recent packet this connection sent
+    pub last_dcid: Vec<u8>,
 }
 
 pub struct Node {
@@ -440,6 +444,8 @@ pub struct World {
     pub mitm: Option<Box<dyn FnMut(&mut Dgram, &[Pkt], &mut MitmCtx) + Send>>,
     pub probe_level: u8,
     pub max_trace: usize,
+    /// connection IDs each endpoint has issued on the wire (handshake SCIDs, NEW_CONNECTION_ID)
+    pub issued: Vec<Vec<Vec<u8>>>,
     pub client_tcfg: Arc<TransportConfig>,
     pub token_store: Option<Arc<dyn quinn_proto::TokenStore>>,
 }
@@ -631,10 +637,12 @@ impl World {
             mitm: None,
             probe_level: 1,
             max_trace: 60_000,
+            issued: Vec::new(),
             client_tcfg,
             token_store: None,
             cfg,
         };
+        w.issued = vec![Vec::new(); w.nodes.len()];
         let c = &w.cfg;
         w.trace.push(json!({
             "ev":"Reset","run":run_id,"seed":c.seed,"lat":c.latency_us,"clients":c.clients,
@@ -729,10 +737,12 @@ impl World {
                         peer: 0,
                         last_frame_rx: [0; 24],
                         app_events: Vec::new(),
+                        last_dcid: Vec::new(),
                     },
                 );
+                let post = self.probe(n, ch.0);
                 self.trace
-                    .push(json!({"ev":"Connect","t":t,"n":n,"c":ch.0,"ok":true}));
+                    .push(json!({"ev":"Connect","t":t,"n":n,"c":ch.0,"ok":true,"post":post}));
                 Some(ch.0)
             }
             Err(e) => {
@@ -816,6 +826,7 @@ impl World {
             at_us: self.now_us + self.cfg.latency_us,
             cls: "gen",
             seq: 0,
+            exact: false,
         };
         if let Some(mut m) = self.mitm.take() {
             let secrets: Vec<u64> = self
@@ -911,6 +922,7 @@ impl World {
             at_us,
             cls,
             seq: 0,
+            exact: false,
         });
         id
     }
@@ -964,6 +976,21 @@ impl World {
             let slot = self.nodes[n].conns.get_mut(&c).unwrap();
             let pkts = wire::parse_datagram(&data, &mut slot.tx);
             let pk = pkts.clone().unwrap_or_default();
+            if let Some(last) = pk.last() {
+                slot.last_dcid = last.dcid.clone();
+            }
+            for p in &pk {
+                if !p.scid.is_empty() && !self.issued[n].contains(&p.scid) {
+                    self.issued[n].push(p.scid.clone());
+                }
+                for f in &p.frames {
+                    if let Frame::NewConnectionId { cid, .. } = f {
+                        if !self.issued[n].contains(cid) {
+                            self.issued[n].push(cid.clone());
+                        }
+                    }
+                }
+            }
             let size = data.len();
             let (id, fate) = self.send_dgram(n, t.destination, data, t.ecn, &pk);
             dgs.push(json!({"id":id,"size":size,"fate":fate_str(&fate),
@@ -1015,8 +1042,18 @@ impl World {
             w.nodes[n].ep.handle(now, src, None, ecn, data, &mut buf)
         });
         let tnow = self.now_us;
+        let mut rctx = TxCtx {
+            dst_cid_len: self.nodes[n].cid_len,
+            next_pn: [0; 3],
+        };
+        let pk: Vec<Value> = wire::parse_datagram(&d.data, &mut rctx)
+            .unwrap_or_default()
+            .iter()
+            .map(pkt_json)
+            .collect();
         let base = json!({"ev":"Rx","t":tnow,"n":n,"id":d.id,"orig":d.orig,"src":addr_id(d.src),
-            "size":size,"cls":d.cls,"first":d.data.first().copied().unwrap_or(0)});
+            "size":size,"cls":d.cls,"first":d.data.first().copied().unwrap_or(0),"pk":pk,
+            "exact":d.exact});
         let Some(r) = r else { return };
         match r {
             None => {
@@ -1047,6 +1084,31 @@ impl World {
                 }
                 let pre = self.probe(n, c);
                 let stats_pre = self.nodes[n].conns[&c].conn.stats();
+                let rtok = {
+                    let slot = &self.nodes[n].conns[&c];
+                    let peer = slot.peer;
+                    if d.data.len() >= 21 {
+                        let tail = &d.data[d.data.len() - 16..];
+                        let key = toycrypto::ToyHmacKey(0x1234 + peer as u64);
+                        let tok = |cid: &[u8]| {
+                            let mut sig = [0u8; 32];
+                            quinn_proto::crypto::HmacKey::sign(&key, cid, &mut sig);
+                            sig[..16].to_vec()
+                        };
+                        if !slot.last_dcid.is_empty()
+                            && self.issued[peer].contains(&slot.last_dcid)
+                            && tok(&slot.last_dcid) == tail
+                        {
+                            "exact"
+                        } else if self.issued[peer].iter().any(|cid| tok(cid) == tail) {
+                            "maybe"
+                        } else {
+                            "no"
+                        }
+                    } else {
+                        "no"
+                    }
+                };
                 self.guarded("conn.handle_event", |w| {
                     w.nodes[n].conns.get_mut(&c).unwrap().conn.handle_event(ev)
                 });
@@ -1059,6 +1121,7 @@ impl World {
                 v["c"] = json!(c);
                 v["dfr"] = json!(dfr);
                 v["dfr_sum"] = json!(dfr.iter().sum::<u64>());
+                v["rtok"] = json!(rtok);
                 v["pre"] = pre;
                 v["post"] = self.probe(n, c);
                 self.trace.push(v);
@@ -1143,6 +1206,7 @@ impl World {
                         peer,
                         last_frame_rx: [0; 24],
                         app_events: Vec::new(),
+                        last_dcid: Vec::new(),
                     },
                 );
                 let p = self.probe(n, ch.0);
@@ -1602,7 +1666,7 @@ pub fn probe_json(p: &quinn_proto::verif::ConnProbe, level: u8) -> Value {
         "idle":p.idle_timeout_us.map_or(-1, |x| x as i64),"authf":p.authentication_failures,
         "authed":p.total_authed_packets,"streams":streams,
         "dgi":p.dgram_incoming,"dgrb":p.dgram_recv_buffered,"dgo":p.dgram_outgoing,
-        "dgot":p.dgram_outgoing_total,"dgsb":p.dgram_send_blocked,
+        "dgot":p.dgram_outgoing_total,"dgsb":p.dgram_send_blocked,"pir":p.permit_idle_reset,
         "rcid":p.rem_cid_active_seq,"lcids":p.loc_cid_active,"lissued":p.loc_cid_issued,
         "lrpt":p.loc_cid_retire_prior_to,"presp":!p.path_responses_empty,
     })
